@@ -699,21 +699,67 @@ def _f_prog():
             ('progParam', '', 'List Instr', '[' + ', '.join(par) + ']', '_process_block: the steps under `if param_im:`')]
 
 
+def _f_outfiles():
+    """fuse.py _out_files: the order of the existence checks and the `rio.open(..., 'w')` calls"""
+    from homonim.fuse import RasterFuse
+    import inspect as _i
+    fn = fn_body(ast.parse(textwrap.dedent(_i.getsource(RasterFuse._out_files.__wrapped__ if hasattr(RasterFuse._out_files, '__wrapped__')
+                                                       else RasterFuse._out_files))))
+    ev = []
+    for st in fn.body:
+        if isinstance(st, ast.Expr) and isinstance(st.value, ast.Constant):
+            continue
+        if isinstance(st, ast.Assign):
+            t, v = U(st.targets[0]), U(st.value)
+            if t == 'corr_filename' and v == 'Path(corr_filename)':
+                continue
+            if t == 'param_filename' and v == 'Path(param_filename) if param_filename else None':
+                continue
+            if t == 'out_im' and v.startswith("rio.open(corr_filename, 'w', "):
+                ev.append('.openCorr')
+                continue
+            if t == 'param_im' and v.startswith("rio.open(param_filename, 'w', ") and v.endswith('if param_filename else None'):
+                ev.append('.openParam')
+                continue
+            raise TranslationError(f'_out_files: unexpected assignment `{t} = {v}`')
+        if isinstance(st, ast.If):
+            test = U(st.test)
+            raises = len(st.body) == 1 and isinstance(st.body[0], ast.Raise) and U(st.body[0].exc).startswith('FileExistsError(')
+            if test == 'not overwrite and corr_filename.exists()' and raises and not st.orelse:
+                ev.append('.checkCorr')
+                continue
+            if test == 'not overwrite and param_filename and param_filename.exists()' and raises and not st.orelse:
+                ev.append('.checkParam')
+                continue
+            raise TranslationError(f'_out_files: unexpected test `{test}`')
+        if isinstance(st, ast.Try):
+            if not (len(st.body) == 1 and U(st.body[0]) == 'yield (out_im, param_im)') or st.handlers or not st.finalbody:
+                raise TranslationError('_out_files: the `try: yield ... finally:` block')
+            fin = [U(x) for x in st.finalbody]
+            want = ['self._set_corr_metadata(out_im, **kwargs)', 'if build_ovw:\n    self._build_overviews(out_im)', 'out_im.close()',
+                    'if param_im:\n    self._set_param_metadata(param_im, **kwargs)\n    if build_ovw:\n        self._build_overviews(param_im)\n    param_im.close()']
+            if fin != want:
+                raise TranslationError(f'_out_files: finalisation {fin}')
+            continue
+        raise TranslationError(f'_out_files: unexpected statement `{U(st)[:60]}`')
+    return [('outFilesEvents', '', 'List FsEvent', '[' + ', '.join(ev) + ']', '_out_files: existence checks and opens, in source order')]
+
+
 # one extractor per source function: a failure in one leaves the others (and the properties they serve) alone
 SECTIONS = [_k_fit_gain, _k_fit_gain_offset, _k_r2, _k_blk, _s_cmp, _s_cmp_mean, _s_stats, _g_blocks, _g_resolve, _g_auto,
-            _g_overlap, _g_expand, _g_round, _g_covers, _g_pindex, _s_cmp_block, _m_cover, _a_bounded, _p_r2band, _f_prog]
+            _g_overlap, _g_expand, _g_round, _g_covers, _g_pindex, _s_cmp_block, _m_cover, _a_bounded, _p_r2band, _f_prog, _f_outfiles]
 # definition-name prefixes each extractor is responsible for (used to attribute a failed extraction to properties)
 PROVIDES = {'_k_fit_gain': ('fitGain_',), '_k_fit_gain_offset': ('fitGainOffset_',), '_k_r2': ('r2_',),
             '_k_blk': ('blk_', 'blockNorm_', 'applyParams'), '_s_cmp': ('cmp_',), '_s_cmp_mean': ('cmp_meanRow',),
             '_s_stats': ('stats_',), '_g_blocks': ('blocks_',), '_g_resolve': ('resolveAutoIsRef',), '_g_auto': ('autoBlock_',),
             '_g_overlap': ('overlapForKernel',), '_g_expand': ('expandWindow_',), '_g_round': ('roundBounds_',),
             '_g_covers': ('covers_axis',), '_g_pindex': ('paramIndex',), '_s_cmp_block': ('cmpPx_',), '_m_cover': ('cover_',),
-            '_a_bounded': ('bounded_',), '_p_r2band': ('stats_isR2Band', 'stats_inpainted'), '_f_prog': ('prog',)}
+            '_a_bounded': ('bounded_',), '_p_r2band': ('stats_isR2Band', 'stats_inpainted'), '_f_prog': ('prog',), '_f_outfiles': ('outFilesEvents',)}
 # which generated definitions (by name prefix) bear on which property's check
 SERVES = {
     'C01': ('fitGain', 'r2_', 'blk_', 'blockNorm_'), 'C02': ('fitGain', 'r2_', 'blk_', 'blockNorm_', 'applyParams'),
     'C07': ('fitGain', 'r2_', 'blk_', 'blockNorm_', 'applyParams'), 'C14': ('applyParams', 'paramIndex'),
-    'C04': ('prog',), 'C09': ('prog',), 'C11': ('cmp_', 'cmpPx_'), 'C12': ('stats_',), 'C17': ('cover_',), 'C20': ('bounded_',), 'C05': ('overlapForKernel', 'blocks_'),
+    'C04': ('prog',), 'C09': ('prog', 'outFilesEvents'), 'C10': ('outFilesEvents',), 'C11': ('cmp_', 'cmpPx_'), 'C12': ('stats_',), 'C17': ('cover_',), 'C20': ('bounded_',), 'C05': ('overlapForKernel', 'blocks_'),
     'C06': ('blocks_', 'expandWindow_', 'roundBounds_', 'autoBlock_'), 'C16': ('covers_axis',), 'C18': ('resolveAutoIsRef',),
 }
 # theorems outside Props/Cxx.lean audited with a property's proof leg: (module, theorem name prefix) - the source-text tie
@@ -728,7 +774,7 @@ TIE = {
             ('E2ESrc', 'block_transparent_src_grid'), ('E2ESrc', 'partitions_agree_src_grid'), ('E2ESrc', 'correctedSrcGrid_eq_on')],
     'C06': [('SrcTieGeom', 'src_C06_')], 'C16': [('SrcTieGeom', 'src_C16_')], 'C18': [('SrcTieGeom', 'src_C18_')],
     'C17': [('SrcTieGeom', 'src_C17_')], 'C20': [('SrcTieGeom', 'src_C20_')],
-    'C04': [('SrcTieSched', 'src_C04_')], 'C09': [('SrcTieSched', 'src_C04_')],
+    'C04': [('SrcTieSched', 'src_C04_')], 'C09': [('SrcTieSched', 'src_C04_')], 'C10': [('SrcTieSched', 'src_C10_')],
 }
 
 
@@ -736,7 +782,7 @@ def generate():
     """(text of GeneratedCode.lean, {extractor name: error text} for the source functions that could not be translated)"""
     lines = ['/-', '  GENERATED by harness/py2lean.py from the source text of the homonim package - do not edit.',
              '  Each definition is the closed form of what the named statement of the code evaluates (see py2lean.py).', '-/',
-             'import Homonim.Model.Sched', 'namespace Homonim.Src', 'open Homonim', '']
+             'import Homonim.Model.Sched', 'import Homonim.Model.FS', 'namespace Homonim.Src', 'open Homonim', '']
     errors = {}
     for fn in SECTIONS:
         try:
